@@ -23,11 +23,12 @@ theorem VecOK.of_srcAfter {cfg : Cfg} {w w' : World α} {o : Nat} {fin : Bool} (
     obtain ⟨h1, h2⟩ := hvo.idle hne
     exact ⟨by rw [hinl hne]; exact h1, fun i hi => by unfold IsRaw; rw [hinl hne]; exact h2 i hi⟩
 
-/-- ELEMENT-WISE MOVE CONSTRUCTION in a system: `c` is unborn, `o` constructed and not stealable -/
-theorem SysAll.ctorMoveElementwise {cfg : Cfg} {w : World α} {U A : List Nat} {c o : Nat} (hs : SysAll cfg w U A)
-    (hcU : c ∈ U) (hcA : c ∉ A) (ho : o ∈ A) (hns : NoSteal (w.hdr c) (w.hdr o)) :
-    (ctorMove cfg c o w).sat
-      (fun _ w' => SysAll cfg w' U (c :: A) ∧ (∀ xs, Holds w o xs → Holds w' c xs) ∧ (w'.hdr c).alloc = (w.hdr o).alloc ∧
+/-- construction of `c` by RELOCATION of `o`'s elements with an arbitrary allocator `a` (the element-wise paths of the plain
+    and of the allocator-extended move constructor) -/
+theorem SysAll.ctorFillMove {cfg : Cfg} {w : World α} {U A : List Nat} {c o : Nat} (hs : SysAll cfg w U A)
+    (hcU : c ∈ U) (hcA : c ∉ A) (ho : o ∈ A) (a : Nat) :
+    (SvModel.ctorFill cfg c a false (srcsMove (w.hdr o).data 0 (w.hdr o).size) w).sat
+      (fun _ w' => SysAll cfg w' U (c :: A) ∧ (∀ xs, Holds w o xs → Holds w' c xs) ∧ (w'.hdr c).alloc = a ∧
                    w'.hdr o = w.hdr o ∧ (∃ ys, Holds w' o ys) ∧
                    ∀ d ∈ A, d ≠ o → w'.hdr d = w.hdr d ∧ w'.mem (w.hdr d).data = w.mem (w.hdr d).data)
       (fun _ w' => SysAll cfg w' U A ∧ w'.live = w.live ∧ w'.hdr o = w.hdr o ∧ (∃ ys, Holds w' o ys) ∧
@@ -40,12 +41,11 @@ theorem SysAll.ctorMoveElementwise {cfg : Cfg} {w : World α} {U A : List Nat} {
   have hn5 := hl.next_ok.2
   have hci5 := hu.inl_lt
   have hoi5 := hvo.inl_lt
-  rw [ctorMove_eq_fill cfg c o hne w hns hvo.size_le hvo.cap_ge]
   have hsz : (w.hdr o).size ≤ cfg.maxSize := Nat.le_trans hvo.size_le (hvo.cap_le_max (hs.ok.nmax o ho))
   -- the source buffer is not the new container's in-object buffer (unless there is nothing to move)
   by_cases hz : (w.hdr o).size = 0
   · -- empty source: plain construction of an empty container (relocation of nothing)
-    have hfill := SysAll.ctorFill hs hcU hcA (w.hdr o).alloc false (srcsMove (w.hdr o).data 0 (w.hdr o).size)
+    have hfill := SysAll.ctorFill hs hcU hcA a false (srcsMove (w.hdr o).data 0 (w.hdr o).size)
       (fun _ => by simpa using hsz)
       (by rw [hz]; exact ⟨fun s h => by simp [srcsMove] at h, fun s h => by simp [srcsMove] at h, fun s h => by simp [srcsMove] at h⟩)
     refine Res.sat_mono hfill ?_ ?_
@@ -66,7 +66,7 @@ theorem SysAll.ctorMoveElementwise {cfg : Cfg} {w : World α} {U A : List Nat} {
       · have hcap : (w.hdr o).cap = (w.hdr o).N := (hvo.inl_iff).mpr hoh
         have := hvo.size_le; omega
     · have := (hvo.data_odd hl hoh).1; omega
-  have hrel := ctorReloc_sat cfg c (w.hdr o).alloc (w.hdr o).data (w.hdr o).size w hu hl hsz hvo.objs hbi (hvo.data_lt_next hl)
+  have hrel := ctorReloc_sat cfg c a (w.hdr o).data (w.hdr o).size w hu hl hsz hvo.objs hbi (hvo.data_lt_next hl)
   -- facts shared by both outcomes
   have others : ∀ {w' : World α}, CFrameX w w' c (w.hdr o).data → (∀ b, b ∈ w.live → b ∈ w'.live) →
       ((w.hdr c).N = 0 → w'.mem (w.hdr c).inl = [] ∧ w.mem (w.hdr c).inl = []) →
@@ -302,5 +302,19 @@ theorem SysAll.ctorMoveElementwise {cfg : Cfg} {w : World α} {U A : List Nat} {
       unfold InlSep
       rw [(hhdrN hf x).1, (hhdrN hf x).2, (hhdrN hf y).1, (hhdrN hf y).2]
       exact hs.inlsep x hx y hy hxy
+
+/-- ELEMENT-WISE MOVE CONSTRUCTION in a system: `c` is unborn, `o` constructed and not stealable -/
+theorem SysAll.ctorMoveElementwise {cfg : Cfg} {w : World α} {U A : List Nat} {c o : Nat} (hs : SysAll cfg w U A)
+    (hcU : c ∈ U) (hcA : c ∉ A) (ho : o ∈ A) (hns : NoSteal (w.hdr c) (w.hdr o)) :
+    (ctorMove cfg c o w).sat
+      (fun _ w' => SysAll cfg w' U (c :: A) ∧ (∀ xs, Holds w o xs → Holds w' c xs) ∧ (w'.hdr c).alloc = (w.hdr o).alloc ∧
+                   w'.hdr o = w.hdr o ∧ (∃ ys, Holds w' o ys) ∧
+                   ∀ d ∈ A, d ≠ o → w'.hdr d = w.hdr d ∧ w'.mem (w.hdr d).data = w.mem (w.hdr d).data)
+      (fun _ w' => SysAll cfg w' U A ∧ w'.live = w.live ∧ w'.hdr o = w.hdr o ∧ (∃ ys, Holds w' o ys) ∧
+                   ∀ d ∈ A, d ≠ o → w'.hdr d = w.hdr d ∧ w'.mem (w.hdr d).data = w.mem (w.hdr d).data) := by
+  have hne : c ≠ o := fun e => hcA (e ▸ ho)
+  have hvo := hs.ok.vec o ho
+  rw [ctorMove_eq_fill cfg c o hne w hns hvo.size_le hvo.cap_ge]
+  exact SysAll.ctorFillMove hs hcU hcA ho (w.hdr o).alloc
 
 end SvModel
